@@ -4,6 +4,7 @@ import (
 	"fmt"
 	"sort"
 	"strings"
+	"sync"
 )
 
 // Script is an append-only SMT-LIB script: declarations, definitions and guarded assumptions.
@@ -15,13 +16,18 @@ type Script struct {
 	prelude  []string // spec functions, uninterpreted functions (emitted first)
 	defIndex map[string]int
 	defTerm  map[string]string
+	assertIdx    map[string][]int
+	assertIdxLen int
+	mu           sync.Mutex
 }
 
 type scriptLine struct {
-	kind string // "decl", "def", "assert"
-	name string // symbol introduced (decl/def)
-	text string
-	uses []string // symbols referenced (for slicing); nil = not computed
+	kind  string // "decl", "def", "assert"
+	name  string // symbol introduced (decl/def)
+	text  string
+	uses  []string // symbols referenced by the defining term / the fact (for slicing)
+	guard []string // symbols of the reachability guard of an assumption
+	done  bool
 }
 
 func NewScript() *Script {
@@ -88,6 +94,17 @@ func (sc *Script) Define(prefix, sort, term string) string {
 	return q
 }
 
+// Name introduces a declared constant equal to term (unlike Define it is a real symbol, usable
+// inside quantifier patterns).
+func (sc *Script) Name(prefix, sort, term string) string {
+	if isAtom(term) {
+		return term
+	}
+	n := sc.Fresh(prefix, sort)
+	sc.lines = append(sc.lines, scriptLine{kind: "assert", text: fmt.Sprintf("(assert (= %s %s))", n, term), uses: append(termSymbols(term), n), done: true})
+	return n
+}
+
 func (sc *Script) Assert(term string) {
 	if term == "true" {
 		return
@@ -100,7 +117,95 @@ func (sc *Script) Assume(reach, fact string) {
 	if fact == "true" {
 		return
 	}
-	sc.Assert(Implies(reach, fact))
+	t := Implies(reach, fact)
+	if t == "true" {
+		return
+	}
+	sc.lines = append(sc.lines, scriptLine{kind: "assert", text: fmt.Sprintf("(assert %s)", t), uses: termSymbols(fact), guard: termSymbols(reach), done: true})
+}
+
+// symsOf returns (and caches) the symbols a line mentions.
+func (sc *Script) symsOf(i int) ([]string, []string) {
+	l := &sc.lines[i]
+	if !l.done {
+		l.done = true
+		switch l.kind {
+		case "def":
+			l.uses = termSymbols(sc.defTerm[l.name])
+		case "assert":
+			l.uses = termSymbols(l.text)
+		}
+	}
+	return l.uses, l.guard
+}
+
+// Slice computes the cone of influence of the goal symbols over lines [0,upto) for asserts
+// (definitions and declarations are taken from the whole script): the set of line indexes to emit.
+// Dropping assumptions only weakens the hypotheses, so `unsat` on the slice implies `unsat` on
+// the full query.
+func (sc *Script) Slice(upto int, goalTerms []string, extra []string) map[int]bool {
+	keep := map[int]bool{}
+	cone := map[string]bool{}
+	var work []string
+	add := func(sym string) {
+		if !cone[sym] {
+			cone[sym] = true
+			work = append(work, sym)
+		}
+	}
+	for _, g := range goalTerms {
+		for _, s := range termSymbols(g) {
+			add(s)
+		}
+	}
+	for _, e := range extra {
+		for _, s := range termSymbols(e) {
+			add(s)
+		}
+	}
+	// index: symbol -> assert lines mentioning it in their fact part
+	if sc.assertIdx == nil || sc.assertIdxLen != len(sc.lines) {
+		sc.assertIdx = map[string][]int{}
+		for i := range sc.lines {
+			if sc.lines[i].kind != "assert" {
+				continue
+			}
+			uses, _ := sc.symsOf(i)
+			seen := map[string]bool{}
+			for _, u := range uses {
+				if !seen[u] {
+					seen[u] = true
+					sc.assertIdx[u] = append(sc.assertIdx[u], i)
+				}
+			}
+		}
+		sc.assertIdxLen = len(sc.lines)
+	}
+	for len(work) > 0 {
+		s := work[len(work)-1]
+		work = work[:len(work)-1]
+		if i, ok := sc.defIndex[s]; ok && !keep[i] {
+			keep[i] = true
+			uses, _ := sc.symsOf(i)
+			for _, u := range uses {
+				add(u)
+			}
+		}
+		for _, i := range sc.assertIdx[s] {
+			if i >= upto || keep[i] {
+				continue
+			}
+			keep[i] = true
+			uses, guard := sc.symsOf(i)
+			for _, u := range uses {
+				add(u)
+			}
+			for _, u := range guard {
+				add(u)
+			}
+		}
+	}
+	return keep
 }
 
 func (sc *Script) Len() int { return len(sc.lines) }
